@@ -576,8 +576,12 @@ fn run(ctx: &mut Ctx) {
             Ok(Err(e)) => ctx.inconclusive(format!("execution seed {seed}: {e}")),
             Ok(Ok((violations, cases))) => {
                 ctx.stat("histories", 1);
+                let (n, nt_n) = (cases.len(), cases.iter().filter(|c| c.1).count());
                 for (h, nt) in cases {
                     ctx.exec(h, nt);
+                }
+                if nt_n > 0 {
+                    ctx.sample(|| json!({"exec_seed": seed, "crash_images_booted_and_judged": n, "of_them_between_commit_and_in_memory_update_or_with_unapplied_buffered_version": nt_n}));
                 }
                 for (sig, mut d) in violations {
                     d["exec_seed"] = json!(seed);
